@@ -97,6 +97,7 @@ pub struct Focus {
     pub captures: bool,   // C13 capture-only chains
     pub path_replay: bool, // C04 whole path through `position ... moves ...`
     pub fen_roots: bool,  // roots loaded through from_fen and compared
+    pub skip_kkx: bool,   // leave the Kk+X family to the sibling property that runs the same oracle on it
 }
 
 impl Focus {
@@ -108,6 +109,8 @@ impl Focus {
             captures: p == "C13",
             path_replay: p == "C04",
             fen_roots: true,
+            // C03(a) is C02's printed-text oracle; C02 runs it on Kk+X, C03 spends the time on schedules instead
+            skip_kkx: p == "C03",
         }
     }
 }
@@ -1201,7 +1204,7 @@ pub fn run(rep: &Report, focus: Focus) -> E1Result {
 
     // K+k+X : 64 items by white king square (not in the quick tier of C13: with one further piece a capture
     // chain has length one; the family is part of C13's thorough tier)
-    if !(focus.captures && quick) {
+    if !(focus.captures && quick) && !focus.skip_kkx {
     run_family(
         "Kk+X (both kings anywhere, at most one further piece of any type anywhere, both sides to move)",
         (0..64u8).map(|wk| Box::new(move || family_kkx(wk..wk + 1)) as Item).collect(),
@@ -1236,8 +1239,8 @@ pub fn run(rep: &Report, focus: Focus) -> E1Result {
             run_family("castle+2 (as castle, with a second piece: any enemy piece or an own knight)", items, 0);
         }
     }
-    // en passant
-    {
+    // en passant (left to C02 for C03's printed-text oracle, like Kk+X)
+    if !focus.skip_kkx {
         let mut items: Vec<Item> = Vec::new();
         for c in [rules::WHITE, rules::BLACK] {
             for f in 0..8i8 {
